@@ -16,6 +16,13 @@ PLAN = {}
 import universe as U
 
 
+# (family, case, shape): instances whose CBMC run exceeded 24 GB in the full thorough runs (every start residue is dropped);
+# named in COMMON_OUTSIDE.  The same case is still run in the other families and in its other shapes.
+RT_TOO_LARGE = {("c01", "VecDeepS", 1), ("c02", "VecDeepS", 1), ("c02", "DeepSStr", 2), ("c07", "BoxString", 5), ("c07", "VecString", 3),
+                ("c03", "VecDeepS", 1), ("c03", "BoxString", 2), ("c03", "BoxString", 3), ("c03", "BoxString", 4), ("c03", "BoxString", 5),
+                ("c03", "VecString", 2), ("c03", "VecString", 3), ("c03", "VecString", 4), ("c03", "VecString", 5)}
+
+
 def fam_harnesses(fam, tier, what, rows=None, only_borrows=False, covers="all"):
     hs = []
     for row in (rows or U.ROWS):
@@ -25,6 +32,8 @@ def fam_harnesses(fam, tier, what, rows=None, only_borrows=False, covers="all"):
             continue
         for pre in ([0] if fam == "c03a" else U.residues(row, tier)):
             for sh in U.shapes(row, tier):
+                if (fam, row["case"], sh) in RT_TOO_LARGE:
+                    continue
                 hs.append(H("inst::" + U.inst_name(fam, row["case"], pre, sh),
                             bound=f"{row['ty']}: all values (sequence/char bounds per cases.rs; shape {sh} of {row['shapes']}), start residue {pre} of unit {row['unit']}, unwind {row['unwind']}",
                             what=what, role=f"{fam}/{row['case']}", covers=covers))
@@ -34,6 +43,7 @@ def fam_harnesses(fam, tier, what, rows=None, only_borrows=False, covers="all"):
 COMMON_OUTSIDE = [
     "types outside the listed universe (bin/universe.py); longer sequences than the per-case bound (<= 3 elements, <= 2 chars)",
     "big-endian and 32-bit targets",
+    "round-trip family instances that exceed 24 GB: " + ", ".join(f"{f}/{c} shape {sh}" for f, c, sh in sorted(RT_TOO_LARGE)),
 ]
 
 PLAN["C01"] = dict(
@@ -289,10 +299,17 @@ PLAN["C04"] = dict(
 _C06 = _json.load(open(_os.path.join(_HERE, "c06_names.json")))
 
 
+# exceed 24 GB (first full thorough run): not run, listed under outside; the same types are covered by C01/C02 round trips, and
+# their digests by the golden tables
+C06_TOO_LARGE = ("c06_vecdeeps_s1", "c06_genc", "c06_bothc", "c06_arrstringx2_s3", "c06_arrstringx2_s2", "c06_arrstringx0", "c06_vecoptu8", "c06_boxstring_s5", "c06_vecstring_s5")
+
+
 def c06_jobs(tier):
     qcases = {r["case"] for r in U.ROWS if r["quick"]} | {"OptU8"}
     hs = []
     for nm, case, sh, fn in _C06["instances"]:
+        if nm in C06_TOO_LARGE:
+            continue
         row = U.BY.get(case, dict(qshapes=[0], ty=case))
         if tier == "quick" and (case not in qcases or sh not in row["qshapes"]):
             continue
@@ -311,7 +328,7 @@ def c06_jobs(tier):
 
 PLAN["C06"] = dict(quick=lambda seed: c06_jobs("quick"), thorough=lambda seed: c06_jobs("thorough"),
                    bounds=dict(RT_BOUNDS, golden="digests of 107 universe types + 25 mutant/extra types and 43 corpus files recorded from the pinned build 709c463"),
-                   outside=COMMON_OUTSIDE + ["padding bytes inside zero-copy structs (uninitialised in the source value): don't-care", "zero-copy enums (ZE) and the 12-tuple: no reference image written", "read-back of reference bytes only for streams <= 64 bytes"],
+                   outside=COMMON_OUTSIDE + ["byte-for-byte conformance harnesses " + ", ".join(C06_TOO_LARGE) + " (CBMC exceeds 24 GB)", "padding bytes inside zero-copy structs (uninitialised in the source value): don't-care", "zero-copy enums (ZE) and the 12-tuple: no reference image written", "read-back of reference bytes only for streams <= 64 bytes"],
                    stubs=RT_STUBS + ["refenc.rs: independent reference encoder of format 1.1", "golden.rs: digests recorded from the pinned build"], assumptions=["the golden files in /verif/harness/golden are the pinned build's output"])
 
 # ---- C05 ---------------------------------------------------------------------------------
@@ -330,6 +347,8 @@ def c05_jobs(tier):
             pres = [0] if tier == "quick" else U.residues(row, "quick")
             for pre in pres:
                 for sh in U.shapes(row, tier):
+                    if (fam, row["case"], sh) in RT_TOO_LARGE:
+                        continue
                     hs.append(H("inst::" + U.inst_name(fam, row["case"], pre, sh), bound=f"{row['ty']}: all values, residue {pre}, shape {sh}", what=what, role=f"c05/{fam}/{row['case']}"))
     hs += names("c05", _fns("c05.rs", r"^pub fn (c05_\w+)\(\)"), bound="grammar corner: all values", what="derived code compiles and round-trips in both modes", covers="none")
     hs += [twin("c01::c01_twin_reach")]
@@ -345,7 +364,9 @@ def c05_generated(seed, count=14):
     rs, js = _os.path.join(gd, f"gen_{seed}.rs"), _os.path.join(gd, f"gen_{seed}.json")
     subprocess.check_call([sys.executable, _os.path.join(_HERE, "gen_types.py"), str(seed), str(count), rs, js], stdout=subprocess.DEVNULL)
     hs = _json.load(open(js))["harnesses"]
-    return dict(tag="gen", env={"VH_GEN_FILE": rs}, timeout=1200,
+    # sampled definitions: one that is too large for CBMC (memory cap / time-out) is recorded as "not decided" in the evidence and
+    # does not make the check inconclusive - the sample, not the machinery, decided its size; every other outcome counts as usual
+    return dict(tag="gen", env={"VH_GEN_FILE": rs}, timeout=1200, undecided_ok=True,
                 harnesses=[H("c05gen::" + h, bound=f"generated definition (seed {seed}): all field values, every variant", what="derived code compiles and round-trips; DeserType ascribed", role="c05/generated", covers="all") for h in hs])
 
 
@@ -394,7 +415,7 @@ PLAN["C09"] = dict(
 C11_ALLOW = [r"core::slice::index::", r"index out of bounds", r"core::panicking::panic_bounds_check", r"slice_index_fail",
              r"Result::<.*TryFromSliceError>::unwrap|unwrap_failed"]
 C11_FULL = _fns("c11.rs", r"\b(c11_full_\w+) =")
-C11_IO = _fns("c11.rs", r"\b(c11_io_\w+) =")
+C11_IO = [n for n in _fns("c11.rs", r"\b(c11_io_\w+) =") if n != "c11_io_vecvec_p1"]  # > 24 GB in the thorough run
 C11_EPS = _fns("c11.rs", r"\b(c11_eps_\w+) =")
 C11_EXACT = _fns("c11.rs", r"\b(c11_exact_\w+) =")
 C11_CUT = _fns("c11_cuts.rs", r"\b(c11_call_\w+) =")
@@ -422,7 +443,7 @@ def c11_jobs(tier):
 
 PLAN["C11"] = dict(quick=lambda seed: c11_jobs("quick"), thorough=lambda seed: c11_jobs("thorough"),
                    bounds=dict(RT_BOUNDS, cut="every k in [0, len) as a solver variable; exact-object variants at listed K"),
-                   outside=COMMON_OUTSIDE + ["truncation inside Vec<String>, Box<[String]>, [String;2], Vec<DeepS<_>> and header truncation for reader types with type names longer than 4 characters: CBMC walks the infeasible Ok-continuation after a failed read (DESIGN.md fact 15) and exceeds 12 GB", "load_full / mmap of a truncated file (load_full reduces to deserialize_full over BufReader<File>: covered at the ReadNoStd boundary; mmap is FFI)", "corruption (as opposed to truncation) of length words"],
+                   outside=COMMON_OUTSIDE + ["truncation inside Vec<String>, Box<[String]>, [String;2], Vec<DeepS<_>> and header truncation for reader types with type names longer than 4 characters: CBMC walks the infeasible Ok-continuation after a failed read (DESIGN.md fact 15) and exceeds 12 GB", "io::Read truncation of Vec<Vec<u16>> at residue 1 (c11_io_vecvec_p1: > 24 GB; residue 0 is run)", "load_full / mmap of a truncated file (load_full reduces to deserialize_full over BufReader<File>: covered at the ReadNoStd boundary; mmap is FFI)", "corruption (as opposed to truncation) of length words"],
                    stubs=RT_STUBS, assumptions=["for ε-copy the property allows an error or a bounds-check panic: failed checks whose function/description is a slice-index or bounds-check panic are tolerated, every other failed check (pointer, arithmetic, other panics, the Ok assertion) is a violation"])
 
 C14_FAIL = _fns("c14.rs", r"\b(c14_fail_\w+):")
@@ -472,14 +493,15 @@ PLAN["C17"] = dict(
     stubs=["Tripwire: WriteNoStd whose write_all is an assert!(false)"], assumptions=[])
 
 C18_ALL = _fns("c18.rs", r"^\s+(c18_\w+) @")
-def _c18_jobs(hs, timeout):
+def _c18_jobs(hs, timeout, per=8):
     # kani-driver keeps the CBMC output of every harness of one invocation in memory (47 GB for the 25 harnesses of the
-    # thorough tier, killed by the kernel): at most 4 harnesses per invocation, 4 CBMC processes in parallel
-    return [dict(harnesses=hs[i:i + 4], timeout=timeout, jobs=4, tag=str(i // 4)) for i in range(0, len(hs), 4)]
+    # thorough tier, killed by the kernel): at most `per` harnesses per invocation (about 4.6 GB of driver memory per harness:
+    # 8 harnesses = 37 GB measured; the quick tier is one invocation of 8, 550 s), 5 CBMC processes in parallel
+    return [dict(harnesses=hs[i:i + per], timeout=timeout, jobs=5, tag=str(i // per)) for i in range(0, len(hs), per)]
 
 
 PLAN["C18"] = dict(
-    quick=lambda seed: _c18_jobs(names("c18", ["c18_zeros_p1", "c18_u32_p1", "c18_deeps_some", "c18_vecu128_p0", "c18_zal32_p8", "c18_hold_zst", "c18_esingle_p0", "c18_arr_u64x0_p1", "c18_toplevel_u32"], bound="concrete shape, field values symbolic, start residue per instance", what="bytes equal plain serialization; rows pre-order/in-stream/tiling/zero padding/aligned; debug() and to_csv() run", covers="none")
+    quick=lambda seed: _c18_jobs(names("c18", ["c18_zeros_p1", "c18_deeps_some", "c18_vecu128_p0", "c18_zal32_p8", "c18_esingle_p0", "c18_arr_u64x0_p1", "c18_toplevel_u32"], bound="concrete shape, field values symbolic, start residue per instance", what="bytes equal plain serialization; rows pre-order/in-stream/tiling/zero padding/aligned; debug() and to_csv() run", covers="none")
                               + [twin("c18::c18_twin_reach")], 900),
     thorough=lambda seed: _c18_jobs(names("c18", C18_ALL + ["c18_toplevel_u32"], bound="concrete shape, field values symbolic", what="schema rows vs bytes", covers="none") + [twin("c18::c18_twin_reach")], 2400),
     bounds={"shapes": "23 concrete shapes incl. 16- and 32-aligned blocks at gaps of 8/16/24/1 bytes, zero-sized fields, zero-sized types that still write bytes (single-variant enum, [u64;0] behind a gap), empty sequences, nested composites, header rows (top level u32)"},
